@@ -155,6 +155,13 @@ func (f *fileWrapper) DataFile() (os.FileInfo, error) {
 // * Info fork starting with .info
 // During Move of the meta files, os.ErrNotExist is ignored as these files may legitimately not exist.
 func (f *fileWrapper) Move(newPath string) error {
+	// Moving (or renaming) onto a name that is taken would make the entry that has the name disappear.
+	if target := filepath.Join(newPath, f.Name); target != f.dataPath {
+		if _, err := f.fs.Stat(target); err == nil {
+			return fmt.Errorf("move to %s: %w", target, os.ErrExist)
+		}
+	}
+
 	err := f.fs.Rename(f.dataPath, filepath.Join(newPath, f.Name))
 	if err != nil {
 		return err
